@@ -25,10 +25,10 @@ TRUSTED = [
     'the harness writer of the XML files (harness/impl_corpus.py: document_xml, build_tree)',
 ]
 ASSUMPTIONS = [
-    'time fields are non-empty ASCII digit strings (other spellings float() accepts are not generated); '
-    'every generated pause differs from the break duration by at least one frame (1/30 s) or both times are whole '
-    'seconds (then all floats are exact and a pause of exactly 5 s is compared, too), so the float comparison in the '
-    'code and the rational comparison in the model agree; a pause within one frame of 5 s with fractional times is excluded',
+    'time fields are non-empty ASCII digit strings (other spellings float() accepts are not generated); the model '
+    'evaluates the time arithmetic in IEEE doubles like the code (Lean Float = C double), so pauses of exactly the break '
+    'duration between fractional times are generated and compared, too; the exact-time theorems (corpus_eq, ...) carry '
+    'TimesExact + FloatCompareAgrees, the share of generated documents inside/outside TimesExact is counted (doc_times:*)',
     'file names are valid UTF-8 without surrogates; the locale encoding of open(outfile, "wt") is UTF-8',
     'unreadable means FileNotFoundError (dangling link); a *.gz file that is not gzip data aborts the run with an OSError '
     '(modelled and compared, not part of the property)',
@@ -80,6 +80,8 @@ def gen_sentence(r, clock, bad, whole=False):
             dur = r.choice([0, 1, 2, 5]) * FPS
         else:
             gap = r.choice([0, 1, 29, 30, 90, 5 * FPS - 1, 5 * FPS + 1, 5 * FPS - 2, 5 * FPS + 31, 5 * FPS - 30,
+                            5 * FPS, 5 * FPS, 5 * FPS,      # a pause of EXACTLY the break duration between fractional times:
+                                                            # the code compares doubles (model: floatArith), cf. C19.boundary_pair
                             10 * FPS, 3600 * FPS + 7, 149, 151])
             dur = r.choice([0, 1, 15, 45, 100])
         clock[0] += gap
@@ -137,8 +139,9 @@ def gen_doc(r, bad=False):
         whole = r.random() < 0.3
         clock = [r.choice([0, 0, 3 * FPS, 5 * FPS, 6 * FPS]) if whole else r.choice([0, 0, 3 * FPS, 5 * FPS + 1, 5 * FPS - 1, 200])]
         doc = [gen_sentence(r, clock, bad, whole) for _ in range(r.choice([0, 1, 1, 2, 2, 3, 4, 6]))]
-        if times_ok(doc):
-            return doc
+        # no filter any more: since the model's time arithmetic is IEEE double (PyndlModel/Corpus.lean floatArith),
+        # documents outside `TimesExact` (pause within one frame of the break duration) are compared as well
+        return doc
     return [{'w': ['fallback'], 't': [], 'layout': ['w']}]
 
 
@@ -340,9 +343,7 @@ def unit_cases(r, n):
                     except ValueError:
                         continue
                     (ends if i[-1:] == 'E' else starts).append(x)
-            ok = all(margin_ok(a, e, b) for a in starts for e in ends)
-            if not ok:
-                brk = None
+            ok = all(margin_ok(a, e, b) for a in starts for e in ends)   # counted only (no longer filtered)
         out.append({'op': 'corpus_read_clean', 'doc': doc, 'break': brk, 'bom': r.random() < 0.3})
     for _ in range(max(4, n // 4)):
         v = r.choice([tstr(r.randint(0, 400000), r, wide=True), '00:00:01', '1:2:3:4', '01,02,03,04', 'a:b:c:d',
@@ -443,6 +444,9 @@ def run(rep, pool, driver, tier):
             gz = [(p, e) for p, e in c['tree'] if p.endswith('.gz') and e != 'dir']
             n_dang = sum(1 for _, e in gz if e == 'dangling')
             rep.case(model_request(c), nontrivial=len(gz) >= 2, stream='create_corpus')
+            for _p, e in c['tree']:
+                if isinstance(e, dict):
+                    rep.count('doc_times:' + ('inside TimesExact margin' if times_ok(e['doc']) else 'pause within one frame of the break (float comparison decides)'))
             rep.count('outcome:' + (model.get('raised') or 'Returned'))
             rep.count('n_threads:%d' % c['n_threads'])
             rep.count('verbose:%s' % bool(c.get('verbose')))
